@@ -175,6 +175,7 @@ type alphSim struct {
 	stopping                bool
 	reobsPhase              bool
 	lastFaultAt             time.Duration
+	forceFault              map[string]int // request kind -> fault code for the next request of that kind
 	injectedFaultSinceStart bool
 
 	handoffs  []handoff
@@ -244,12 +245,16 @@ func (s *alphSim) onMain(b *simBlock) bool {
 func (s *alphSim) includeTx(tx *simTx, b *simBlock) {
 	b.txs = append(b.txs, tx)
 	for _, e := range tx.events {
-		le := logEntry{e, tx, b}
-		if e.contract == addrOf(govID) {
-			s.govLog = append(s.govLog, le)
-		}
-		s.txIndex[tx.id] = append(s.txIndex[tx.id], le)
+		s.includeEvent(e, tx, b)
 	}
+}
+
+func (s *alphSim) includeEvent(e *simEvent, tx *simTx, b *simBlock) {
+	le := logEntry{e, tx, b}
+	if e.contract == addrOf(govID) {
+		s.govLog = append(s.govLog, le)
+	}
+	s.txIndex[tx.id] = append(s.txIndex[tx.id], le)
 }
 
 func u256(v string) sdk.Val { return sdk.Val{ValU256: &sdk.ValU256{Type: "U256", Value: v}} }
@@ -424,7 +429,19 @@ func (s *alphSim) emit(kind, level, variant, more int) *simTx {
 			if k%3 == 2 {
 				kk = 1 // a matching attestation: on mainnet it confirms long before a transfer of the same block
 			}
-			tx.events = append(tx.events, s.makeEvent(kk, (level+3*k)%64, variant+k, seq))
+			merge := (variant+k)%2 == 1 && first != nil && kind != 7
+			if merge {
+				seq = uint64(500000 + s.nextEv) // sequences stay unique although no transaction is added
+			}
+			ev := s.makeEvent(kk, (level+3*k)%64, variant+k, seq)
+			if merge {
+				// the token bridge publishes a further message in the same transaction
+				first.events = append(first.events, ev)
+				s.includeEvent(ev, first, b)
+				s.stats.Fault("several-messages-in-one-transaction")
+				continue
+			}
+			tx.events = append(tx.events, ev)
 			s.stats.Fault("several-messages-in-one-block")
 		case kind == 7:
 			tx.events = append(tx.events, s.makeEvent(0, level, 0, seq), s.makeEvent(7, level, variant, seq))
@@ -587,7 +604,12 @@ func (s *alphSim) answer(p *parkedReq) *http.Response {
 	if s.aborting {
 		return jsonResp(req, 503, map[string]string{"detail": "simulation is shutting down"})
 	}
-	if f, hit := s.faultFor(kind, p.key); hit {
+	f, hit := s.faultFor(kind, p.key)
+	if c, forced := s.forceFault[kind]; forced {
+		delete(s.forceFault, kind)
+		f, hit = c, true
+	}
+	if hit {
 		s.lastFaultAt = s.now()
 		s.injectedFaultSinceStart = true
 		switch f {
@@ -1253,14 +1275,27 @@ func (s *alphSim) reobserve(st simkit.Step) {
 	s.mu.Lock()
 	s.reobsPhase = true
 	s.mu.Unlock()
+	raced := false
 	for k := 0; k < 400; k++ {
 		synctest.Wait()
 		p := s.pick("reobserve")
 		if p == nil {
 			break
 		}
+		kind := reqKind(p.req.URL.Path)
 		s.release(p)
+		if st.C == 1 && kind == "txstatus" && !raced && len(tx) == 32 {
+			// the chain moves on right after the transaction-status answer: the block just reported as
+			// the confirmed one is orphaned (the transaction is not re-included), and the node may
+			// fail the main-chain query that follows
+			raced = true
+			synctest.Wait()
+			s.orphanTx(hex.EncodeToString(tx), int(st.D))
+		}
 	}
+	s.mu.Lock()
+	s.forceFault = nil
+	s.mu.Unlock()
 	synctest.Wait()
 	// a request the watcher did not pick up now (it is restarting) is withdrawn, otherwise it would
 	// be handled later, outside the phase that attributes hand-offs to the re-observation path
@@ -1273,6 +1308,27 @@ func (s *alphSim) reobserve(st simkit.Step) {
 	s.reobsPhase = false
 	s.mu.Unlock()
 	s.stats.Probe("reobservation-requests")
+}
+
+func (s *alphSim) orphanTx(id string, code int) {
+	s.mu.Lock()
+	depth := 0
+	for _, le := range s.txIndex[id] {
+		if s.onMain(le.block) {
+			depth = int(s.height()-le.block.height) + 1
+		}
+	}
+	s.mu.Unlock()
+	if depth == 0 {
+		return
+	}
+	s.reorg(depth, 0)
+	s.mu.Lock()
+	if code%5 != 4 {
+		s.forceFault = map[string]int{"canonical": code % 4}
+	}
+	s.stats.Fault("reorg-after-the-transaction-status-answer")
+	s.mu.Unlock()
 }
 
 // settleAndCheck (C09): faults have stopped; mine blocks and let time pass until every pending
@@ -1398,7 +1454,7 @@ func (alphHarness) Gen(seed uint64, prop, tier string) *simkit.Program {
 			}
 		case 6:
 			if prop == "C08" {
-				add("reobs", int64(r.Intn(16)), int64(r.Intn(6)), 0, 0)
+				add("reobs", int64(r.Intn(16)), int64(r.Intn(6)), int64(r.Pick(4, 1)), int64(r.Intn(5)))
 			} else {
 				add("adv", int64(r.Range(1, 40))*sec, 0, 0, 0)
 			}
@@ -1431,7 +1487,7 @@ func (alphHarness) Gen(seed uint64, prop, tier string) *simkit.Program {
 			add("adv", 3400*sec, 0, 0, 0)
 		}
 		for i := 0; i < r.Intn(4); i++ {
-			add("reobs", int64(r.Intn(16)), int64(r.Intn(3)), 0, 0)
+			add("reobs", int64(r.Intn(16)), int64(r.Intn(3)), int64(r.Pick(2, 1)), int64(r.Intn(5)))
 		}
 	}
 	return p
